@@ -5,7 +5,8 @@
 //! case: field 0 = configuration
 //!     max_qos(0..2), receive_max (v5; 0 = library default), topic_alias_max (v5),
 //!     max_receive (v3 limiter; 0 = unlimited), protocol_service_mode (0 = library default
-//!     protocol service, 1 = harness protocol service, gated)
+//!     protocol service, 1 = harness protocol service, gated), connect_session_expiry (v5: 0 = the CONNECT
+//!     asks for session expiry 0, else for 60 s)
 //!   then one field per operation
 //!     1,tpl,args..   the peer writes one packet:
 //!        tpl 1 PUBLISH qos,id,topic_idx,alias,retain,payload_len
@@ -482,7 +483,12 @@ async fn server5(cfgf: &[u64], log: SLog, hg: Gates<u64>, pg: Gates<u64>) -> IoT
             v5::MqttServer::new(handshake).protocol(proto).control(control).publish(publish);
         conn::start_server(srv, cfg).await
     };
-    peer.write(conn::V5_CONNECT);
+    if arg(cfgf, 5) != 0 {
+        // CONNECT asking for Session Expiry Interval 60 (property 0x11): the session is not a zero-expiry one
+        peer.write(b"\x10\x13\x00\x04MQTT\x05\x02\x00\x3c\x05\x11\x00\x00\x00\x3c\x00\x01c".as_slice());
+    } else {
+        peer.write(conn::V5_CONNECT);
+    }
     settle().await;
     let _connack = peer.read_any();
     peer
